@@ -85,6 +85,7 @@ class Conn:
         self.log = NullLog()
         self.stall = False
         self.stalled = []
+        self.handler_exception = None
 
     # -- what start_client sees -----------------------------------------------------------------
     async def recv(self):
@@ -124,17 +125,19 @@ class Conn:
         self.closed_by_relay = code
 
     # -- what the environment does ----------------------------------------------------------------
-    def deliver(self, text):
+    def deliver(self, text, quiescent=None):
         if self.dropped:
             return
+        # environment action: recorded with whether the relay was idle at that moment (no ready handle, no pending job)
+        self.transcript.append(("deliver", self.world.tick(), quiescent))
         if self.waiter is not None and not self.waiter.done():
             self.waiter.set_result(text)
         else:
             self.inbox.append(text)
 
-    def drop(self):
+    def drop(self, quiescent=None):
         self.dropped = True
-        self.transcript.append(("drop", self.world.tick(), None))
+        self.transcript.append(("drop", self.world.tick(), quiescent))
         if self.waiter is not None and not self.waiter.done():
             self.waiter.set_exception(self.world.ns.web.falcon.WebSocketDisconnected())
         for f in self.stalled:
@@ -161,7 +164,12 @@ class World:
     """backend: 'sql' | 'kv'."""
 
     def __init__(self, backend, config=None, storage_options=None, max_limit=6000, rate_limits=None,
-                 path=None, fresh=True, message_timeout=1800):
+                 path=None, fresh=True, message_timeout=1800, _session=False):
+        if not _session:
+            # one live World per process: Config, the storage singleton and the running-loop marker are process globals
+            from . import seq
+
+            seq.close_all()
         self.ns = env.boot(max_limit=max_limit)
         ns = self.ns
         self.backend = backend
@@ -223,9 +231,18 @@ class World:
     def connect(self, name, addr="1.1.1.1"):
         c = Conn(self, name, addr)
         self.conns[name] = c
-        c.task = self.loop.create_task(self.ns.web.start_client(
-            self.storage, c.send, c.recv, c.close, c.log,
-            rate_limiter=self.rate_limiter, remote_addr=addr, message_timeout=self.message_timeout))
+        async def handler():
+            try:
+                return await self.ns.web.start_client(
+                    self.storage, c.send, c.recv, c.close, c.log,
+                    rate_limiter=self.rate_limiter, remote_addr=addr, message_timeout=self.message_timeout)
+            except BaseException as e:
+                c.handler_exception = e  # nothing may escape the connection handler (C19)
+                raise
+            finally:
+                c.transcript.append(("done", self.tick(), None))
+
+        c.task = self.loop.create_task(handler())
         return c
 
     def run(self, horizon=50.0):
